@@ -91,12 +91,12 @@ theorem methodMsgs_repl (c : Ctx) (rq : Bool) (mt mt' : Method) (r r' : List Pro
       · subst hm
         exact ⟨_, Or.inr rfl, hd _⟩
 
-theorem editService_field_deep (prop : Property) (m : Nat) (rq : Bool) (rest : List PStep)
+theorem editService_field_deep (act : Act) (m : Nat) (rq : Bool) (rest : List PStep)
     (sv sv' : Service)
-    (h : editService (.field prop) (.method m :: reqStep rq :: rest) sv = some sv') :
+    (h : editService act (.method m :: reqStep rq :: rest) sv = some sv') :
     ∃ M1 M2 mt mt' r r', sv.methods = M1 ++ [mt] ++ M2 ∧
       sv' = { sv with methods := M1 ++ [mt'] ++ M2 } ∧ M1.length = m ∧ MethodRepl rq mt mt' r r' ∧
-      editProps (.field prop) rest r = some r' := by
+      editProps act rest r = some r' := by
   cases rq with
   | true =>
     simp only [reqStep, editService] at h
@@ -120,13 +120,13 @@ theorem editService_field_deep (prop : Property) (m : Nat) (rq : Bool) (rest : L
       exact ⟨_, _, mt, _, r, r', g1, by rw [g2], g3, ⟨hr, rfl⟩, he⟩
 
 /-- `appendField` with the path `el i :: method m :: (req | res) :: rest` -/
-theorem editElems_field_method_deep (prop : Property) (i m : Nat) (rq : Bool) (rest : List PStep)
+theorem editElems_field_method_deep (act : Act) (i m : Nat) (rq : Bool) (rest : List PStep)
     (elems elems' : List Elem)
-    (h : editElems (.field prop) (.el i :: .method m :: reqStep rq :: rest) elems = some elems') :
+    (h : editElems act (.el i :: .method m :: reqStep rq :: rest) elems = some elems') :
     ∃ E1 E2 sv M1 M2 mt mt' r r', elems = E1 ++ [.service sv] ++ E2 ∧
       elems' = E1 ++ [.service { sv with methods := M1 ++ [mt'] ++ M2 }] ++ E2 ∧ E1.length = i ∧
       sv.methods = M1 ++ [mt] ++ M2 ∧ M1.length = m ∧ MethodRepl rq mt mt' r r' ∧
-      editProps (.field prop) rest r = some r' := by
+      editProps act rest r = some r' := by
   simp only [editElems] at h
   obtain ⟨a, a', h1, hf, h2, h3⟩ := setAt_some _ _ _ _ h
   cases a with
@@ -138,7 +138,7 @@ theorem editElems_field_method_deep (prop : Property) (i m : Nat) (rq : Bool) (r
   | service sv =>
     simp only [editElem] at hf
     obtain ⟨sv', hsv, rfl⟩ := Option.map_eq_some_iff.mp hf
-    obtain ⟨M1, M2, mt, mt', r, r', g1, rfl, g3, g4, g5⟩ := editService_field_deep prop m rq rest sv sv' hsv
+    obtain ⟨M1, M2, mt, mt', r, r', g1, rfl, g3, g4, g5⟩ := editService_field_deep act m rq rest sv sv' hsv
     exact ⟨_, _, sv, M1, M2, mt, mt', r, r', h1, h2, h3, g1, g3, g4, g5⟩
 
 /-! ### the service item -/
@@ -322,10 +322,10 @@ theorem nodeObjs_repl (tn tn' : TopicNode) (T1 T2 : List TopicMsg) (tm : TopicMs
     · simp only [nodeObjs, List.filterMap_append, List.filterMap_cons, List.filterMap_nil, hn,
         topicMethodName_msg_repl, hnm, Option.map_some, topicObjName, Option.getD_some]
 
-theorem editMsgs_field_deep (prop : Property) (m : Nat) (rest : List PStep) (msgs ms : List TopicMsg)
-    (h : editMsgs (.field prop) m rest msgs = some ms) :
+theorem editMsgs_field_deep (act : Act) (m : Nat) (rest : List PStep) (msgs ms : List TopicMsg)
+    (h : editMsgs act m rest msgs = some ms) :
     ∃ T1 T2 tm ps', msgs = T1 ++ [tm] ++ T2 ∧ ms = T1 ++ [{ tm with props := ps' }] ++ T2 ∧
-      editProps (.field prop) rest tm.props = some ps' := by
+      editProps act rest tm.props = some ps' := by
   unfold editMsgs at h
   obtain ⟨tm, tm', g1, gf, g2, _⟩ := setAt_some _ _ _ _ h
   obtain ⟨ps', he, rfl⟩ := Option.map_eq_some_iff.mp gf
@@ -333,10 +333,10 @@ theorem editMsgs_field_deep (prop : Property) (m : Nat) (rest : List PStep) (msg
 
 /-- `appendField` below a topic message (`msg m`, `reqm m`, `repm m`, then `rest`): one node of the
 topic gets new properties in one of its messages -/
-theorem editTopic_field_deep (prop : Property) (k m : Nat) (rest : List PStep) (t t' : Topic)
-    (h : editTopic (.field prop) (topicStep k m :: rest) t = some t') :
+theorem editTopic_field_deep (act : Act) (k m : Nat) (rest : List PStep) (t t' : Topic)
+    (h : editTopic act (topicStep k m :: rest) t = some t') :
     ∃ N1 N2 tn tn' T1 T2 tm ps', topicNodes t = N1 ++ [tn] ++ N2 ∧ topicNodes t' = N1 ++ [tn'] ++ N2 ∧
-      NodeRepl tn tn' T1 T2 tm ps' ∧ editProps (.field prop) rest tm.props = some ps' := by
+      NodeRepl tn tn' T1 T2 tm ps' ∧ editProps act rest tm.props = some ps' := by
   match k with
   | 0 =>
     simp only [topicStep, editTopic] at h
@@ -344,7 +344,7 @@ theorem editTopic_field_deep (prop : Property) (k m : Nat) (rest : List PStep) (
     | publish msgs =>
       simp only [ht] at h
       obtain ⟨ms, hms, rfl⟩ := Option.map_eq_some_iff.mp h
-      obtain ⟨T1, T2, tm, ps', g1, g2, g3⟩ := editMsgs_field_deep prop m rest msgs ms hms
+      obtain ⟨T1, T2, tm, ps', g1, g2, g3⟩ := editMsgs_field_deep act m rest msgs ms hms
       refine ⟨[], [], { name := t.name, msgs := msgs, topicName := toSnake t.name, role := .publish },
         _, T1, T2, tm, ps', ?_, ?_, ⟨g1, rfl⟩, g3⟩
       · simp [topicNodes, ht]
@@ -355,7 +355,7 @@ theorem editTopic_field_deep (prop : Property) (k m : Nat) (rest : List PStep) (
       by_cases hm : m = 0
       · simp only [hm, if_true] at h
         obtain ⟨ms, hms, hh⟩ := Option.bind_eq_some_iff.mp h
-        obtain ⟨T1, T2, tm, ps', g1, g2, g3⟩ := editMsgs_field_deep prop 0 rest [msg] ms hms
+        obtain ⟨T1, T2, tm, ps', g1, g2, g3⟩ := editMsgs_field_deep act 0 rest [msg] ms hms
         have hT : T1 = [] ∧ tm = msg ∧ T2 = [] := by
           cases T1 with
           | nil => simp at g1; exact ⟨rfl, g1.1.symm, g1.2⟩
@@ -375,7 +375,7 @@ theorem editTopic_field_deep (prop : Property) (k m : Nat) (rest : List PStep) (
       by_cases hm : m = 0
       · simp only [hm, if_true] at h
         obtain ⟨ms, hms, hh⟩ := Option.bind_eq_some_iff.mp h
-        obtain ⟨T1, T2, tm, ps', g1, g2, g3⟩ := editMsgs_field_deep prop 0 rest [msg] ms hms
+        obtain ⟨T1, T2, tm, ps', g1, g2, g3⟩ := editMsgs_field_deep act 0 rest [msg] ms hms
         have hT : T1 = [] ∧ tm = msg ∧ T2 = [] := by
           cases T1 with
           | nil => simp at g1; exact ⟨rfl, g1.1.symm, g1.2⟩
@@ -396,7 +396,7 @@ theorem editTopic_field_deep (prop : Property) (k m : Nat) (rest : List PStep) (
     | reqres reqs reps =>
       simp only [ht] at h
       obtain ⟨ms, hms, rfl⟩ := Option.map_eq_some_iff.mp h
-      obtain ⟨T1, T2, tm, ps', g1, g2, g3⟩ := editMsgs_field_deep prop m rest reqs ms hms
+      obtain ⟨T1, T2, tm, ps', g1, g2, g3⟩ := editMsgs_field_deep act m rest reqs ms hms
       refine ⟨[], [{ name := t.name ++ b!"Reply", msgs := reps, topicName := toSnake t.name, role := .reply, prepend := requestPrepend }],
         { name := t.name ++ b!"Request", msgs := reqs, topicName := toSnake t.name, role := .request, prepend := requestPrepend },
         _, T1, T2, tm, ps', ?_, ?_, ⟨g1, rfl⟩, g3⟩
@@ -411,7 +411,7 @@ theorem editTopic_field_deep (prop : Property) (k m : Nat) (rest : List PStep) (
     | reqres reqs reps =>
       simp only [ht] at h
       obtain ⟨ms, hms, rfl⟩ := Option.map_eq_some_iff.mp h
-      obtain ⟨T1, T2, tm, ps', g1, g2, g3⟩ := editMsgs_field_deep prop m rest reps ms hms
+      obtain ⟨T1, T2, tm, ps', g1, g2, g3⟩ := editMsgs_field_deep act m rest reps ms hms
       refine ⟨[{ name := t.name ++ b!"Request", msgs := reqs, topicName := toSnake t.name, role := .request, prepend := requestPrepend }], [],
         { name := t.name ++ b!"Reply", msgs := reps, topicName := toSnake t.name, role := .reply, prepend := requestPrepend },
         _, T1, T2, tm, ps', ?_, ?_, ⟨g1, rfl⟩, g3⟩
@@ -422,14 +422,14 @@ theorem editTopic_field_deep (prop : Property) (k m : Nat) (rest : List PStep) (
     | event en msg => simp [ht] at h
 
 /-- `appendField` with the path `el i :: (msg m | reqm m | repm m) :: rest` -/
-theorem editElems_field_topic_deep (prop : Property) (i k m : Nat) (rest : List PStep)
+theorem editElems_field_topic_deep (act : Act) (i k m : Nat) (rest : List PStep)
     (elems elems' : List Elem)
-    (h : editElems (.field prop) (.el i :: topicStep k m :: rest) elems = some elems') :
+    (h : editElems act (.el i :: topicStep k m :: rest) elems = some elems') :
     ∃ E1 E2 t t', elems = E1 ++ [.topic t] ++ E2 ∧ elems' = E1 ++ [.topic t'] ++ E2 ∧ E1.length = i ∧
-      editTopic (.field prop) (topicStep k m :: rest) t = some t' := by
+      editTopic act (topicStep k m :: rest) t = some t' := by
   simp only [editElems] at h
   obtain ⟨a, a', h1, hf, h2, h3⟩ := setAt_some _ _ _ _ h
-  have hst : ∀ o : ObjDecl, editDecl (.field prop) (topicStep k m :: rest) o = none := by
+  have hst : ∀ o : ObjDecl, editDecl act (topicStep k m :: rest) o = none := by
     intro o
     cases o with
     | mk n ps ne psm =>
